@@ -628,6 +628,12 @@ class Ev:
                 if not (isinstance(x, int) and rng[0] <= x <= rng[1]):
                     raise Raised("OverflowError", n)
             return Arr(tc, items)
+        if fname == "operator.index" and len(args) == 1 and not kw:
+            if isinstance(args[0], int):
+                return int(args[0])
+            if isinstance(args[0], (str, bytes, float, list, tuple, dict, type(None))):
+                raise Raised("TypeError", n)
+            raise Unknown("operator.index of %s" % type(args[0]).__name__)
         if fname == "int.from_bytes":
             return int.from_bytes(*args, **kw)
         # instance method of the object under evaluation: self.helper(...)
